@@ -38,6 +38,11 @@ CLAIMED = {
         "technique": "structural delegation check against the parsed parent signature; guard/metric agreement over the L1 call graph; def-use checks of M-step/E-step; must-guard rule",
         "note": _COMMON_NOTE + " Declined: label/inertia/centre consistency as numbers, equality with KMeans beyond delegation.",
     },
+    "C07": {
+        "text": "Static rules over _kmeans_constraint_.py/kmeans_constraint.py deciding the bookkeeping the size guarantee rests on: every label assignment of the distance strategy is paired with the counter increment under the quota or leftover guard (comparison operators included); every other element write of the label array is an exchange of two entries or a move with symmetric counter updates under the two-sided capacity guard; the allowance vector of the gain strategy is zero-filled and exactly n - ave*k distinct entries are set to 1 (exact linear arithmetic on the source expressions); limit = n // k and leftover = n - limit*k at both set-up sites; the iteration counter is bounded by its loop guard; predict dispatches to the balanced assignment iff balanced_predictions. That the greedy procedure as a whole reaches balance for every geometry is an algorithmic theorem and is declined.",
+        "technique": "tracked-aggregate / pairing rules on AST blocks with guard matching; exact linear arithmetic (Fractions) on quota expressions; dispatch structure check",
+        "note": _COMMON_NOTE + " The rules identify the bookkeeping variables by their roles in the functions named in the property's anchors; a rename of those locals is reported as ANALYSIS-ERROR/violation of shape, which is the price of deciding operators and pairings exactly.",
+    },
 }
 
 NOT_APPLICABLE = {}
